@@ -460,7 +460,7 @@ func TestC07(t *testing.T) {
 	if t.Failed() {
 		return
 	}
-	c07Abandon.rapidCheck(t, pickTier(400, 3000), func(rt *rapid.T) c07AbandonCase {
+	c07Abandon.rapidCheck(t, pickTier(400, 8000), func(rt *rapid.T) c07AbandonCase {
 		action := rapid.SampledFrom([]string{"RSET", "QUIT", "EHLO", "EOF", "EOF", "RSET", "TIMEOUT", "DATA-TIMEOUT", "OVERLIMIT", "OVERLIMIT"}).Draw(rt, "action")
 		spec := convSpec{Mode: rapid.IntRange(0, 2).Draw(rt, "mode"), NRcpt: rapid.IntRange(1, 3).Draw(rt, "nrcpt")}
 		m := genConvMsg(rt, "m0", 5)
